@@ -222,42 +222,23 @@ func ruleDockerMatch(r *Run) {
 		return
 	}
 	good := true
-	var loop *rangeLoop
-	for _, l := range rangeIndexLoops(mf) {
-		if l.X == ssa.Value(mf.Params[1]) {
-			loop = l
+	// checkValueArg: the value handed to match is labels[matcher.Label] of the given label set, looked up
+	// plainly (a missing label reads as "")
+	checkValueArg := func(matchCall *ssa.Call, recv ssa.Value) {
+		val := unspill(matchCall.Call.Args[1])
+		var lk *ssa.Lookup
+		switch x := val.(type) {
+		case *ssa.Lookup:
+			lk = x
+		case *ssa.Extract:
+			lk, _ = x.Tuple.(*ssa.Lookup)
 		}
-	}
-	if loop == nil {
-		om.Fail(r.pos(mf.Pos()), "no range loop over the whole matchers parameter")
-		return
-	}
-	var matchCall *ssa.Call
-	for b := range loop.Blocks {
-		for _, in := range b.Instrs {
-			if c, ok := in.(*ssa.Call); ok && callIs(c, dl, "match") {
-				matchCall = c
-			}
+		if lk == nil {
+			good = false
+			om.Fail(r.pos(matchCall.Pos()), "match is applied to %s, not to the container's label value", describe(val, 0))
+			return
 		}
-	}
-	if matchCall == nil {
-		om.Fail(r.pos(mf.Pos()), "match is not called in the loop")
-		return
-	}
-	// value argument: lookup in c.labels by string(matcher.Label), not comma-ok gated
-	val := unspill(matchCall.Call.Args[1])
-	var lk *ssa.Lookup
-	switch x := val.(type) {
-	case *ssa.Lookup:
-		lk = x
-	case *ssa.Extract:
-		lk, _ = x.Tuple.(*ssa.Lookup)
-	}
-	if lk == nil {
-		good = false
-		om.Fail(r.pos(matchCall.Pos()), "match is applied to %s, not to the container's label value", describe(val, 0))
-	} else {
-		if f, base, ok := loadOfField(lk.X); !ok || f != "labels" || !(base == ssa.Value(mf.Params[0]) || spillParam(base) == ssa.Value(mf.Params[0])) {
+		if f, base, ok := loadOfField(lk.X); !ok || f != "labels" || !(base == recv || spillParam(base) == recv) {
 			good = false
 			om.Fail(r.pos(lk.Pos()), "label value is looked up in %s, not in the container's labels", describe(lk.X, 0))
 		}
@@ -276,6 +257,95 @@ func ruleDockerMatch(r *Run) {
 			}
 		}
 	}
+	var loop *rangeLoop
+	for _, l := range rangeIndexLoops(mf) {
+		if l.X == ssa.Value(mf.Params[1]) {
+			loop = l
+		}
+	}
+	if loop == nil {
+		// the library quantifier: !slices.ContainsFunc(matchers, rejects) with rejects(m) = !match(m, labels[m.Label])
+		ok := false
+		for _, ret := range returnsOf(mf) {
+			if len(ret.Results) != 1 {
+				continue
+			}
+			not, isNot := ret.Results[0].(*ssa.UnOp)
+			if !isNot || not.Op != token.NOT {
+				continue
+			}
+			cf, isCall := not.X.(*ssa.Call)
+			if !isCall {
+				continue
+			}
+			if pk, nm := calleePkgName(cf); pk != "slices" || nm != "ContainsFunc" || len(cf.Call.Args) != 2 || unspill(cf.Call.Args[0]) != ssa.Value(mf.Params[1]) {
+				continue
+			}
+			// the predicate: a method value bound to this label set, or a closure
+			pred, bound := predicateOf(cf.Call.Args[1])
+			if pred == nil || len(pred.Params) == 0 {
+				continue
+			}
+			if bound != nil && !(unspill(bound) == ssa.Value(mf.Params[0]) || spillParam(bound) == ssa.Value(mf.Params[0])) {
+				om.Fail(r.pos(cf.Pos()), "the predicate is bound to %s, not to this label set", describe(bound, 0))
+				return
+			}
+			var mc *ssa.Call
+			for _, c := range callsIn(pred) {
+				if call, isC := c.(*ssa.Call); isC && callIs(call, dl, "match") {
+					mc = call
+				}
+			}
+			if mc == nil {
+				continue
+			}
+			// rejects = !match(...) on every return
+			neg := true
+			for _, pr := range returnsOf(pred) {
+				u, isU := pr.Results[0].(*ssa.UnOp)
+				if !isU || u.Op != token.NOT || u.X != ssa.Value(mc) {
+					neg = false
+				}
+			}
+			if !neg {
+				om.Fail(r.pos(pred.Pos()), "the predicate given to slices.ContainsFunc is not the negation of match")
+				return
+			}
+			mparam := pred.Params[len(pred.Params)-1]
+			if unspill(mc.Call.Args[0]) != ssa.Value(mparam) && spillParam(addrOfLoad(mc.Call.Args[0])) != ssa.Value(mparam) {
+				om.Fail(r.pos(mc.Pos()), "match is applied to %s, not to the matcher under test", describe(mc.Call.Args[0], 0))
+				return
+			}
+			recvP := ssa.Value(pred.Params[0])
+			if len(pred.FreeVars) > 0 && len(pred.Params) == 1 {
+				recvP = pred.FreeVars[0]
+			}
+			checkValueArg(mc, recvP)
+			ok = true
+		}
+		if !ok {
+			om.Fail(r.pos(mf.Pos()), "no range loop over the whole matchers parameter (and no !slices.ContainsFunc(matchers, rejects) form)")
+			return
+		}
+		if good {
+			om.OK("!slices.ContainsFunc(matchers, m -> !match(m, labels[m.Label])) with a plain lookup").At(r.pos(mf.Pos()))
+		}
+		return
+	}
+	var matchCall *ssa.Call
+	for b := range loop.Blocks {
+		for _, in := range b.Instrs {
+			if c, ok := in.(*ssa.Call); ok && callIs(c, dl, "match") {
+				matchCall = c
+			}
+		}
+	}
+	if matchCall == nil {
+		om.Fail(r.pos(mf.Pos()), "match is not called in the loop")
+		return
+	}
+	// value argument: lookup in c.labels by string(matcher.Label), not comma-ok gated
+	checkValueArg(matchCall, ssa.Value(mf.Params[0]))
 	// the matcher argument is the ranged element
 	marg := unspill(matchCall.Call.Args[0])
 	if u, ok := marg.(*ssa.UnOp); !ok || !isIndexOf(u.X, loop) {
@@ -371,7 +441,7 @@ func ruleLabelRegexAnchoring(r *Run) {
 		nCompile++
 		if !callIs(c, "regexp", "Compile") {
 			good = false
-			o.Fail(r.pos(c.Pos()), "calls regexp.%s", callee.Name())
+			o.Fail(r.pos(c.Pos()), "calls regexp.%s", cname(callee))
 			continue
 		}
 		arg := c.Common().Args[0]
@@ -568,7 +638,7 @@ func ruleOpenLog(r *Run) {
 				continue
 			}
 			ac, ok := unspill(uc.Call.Args[0]).(*ssa.Call)
-			if !ok || ac.Common().StaticCallee() == nil || ac.Common().StaticCallee().Name() != "AsTime" || lf.resolve(ac.Call.Args[0]) != ssa.Value(w.prm) {
+			if !ok || ac.Common().StaticCallee() == nil || cname(ac.Common().StaticCallee()) != "AsTime" || lf.resolve(ac.Call.Args[0]) != ssa.Value(w.prm) {
 				bad = true
 				ow.Fail(r.pos(uc.Pos()), "%s derives from %s, not directly from %s.AsTime()", w.field, describe(uc.Call.Args[0], 0), w.prm.Name())
 				continue
@@ -1013,4 +1083,35 @@ func ruleOpenLogContext(r *Run) {
 	if !bad {
 		o.OK("%d openLog call(s) use the query context", n).At(r.pos(sl.Pos()))
 	}
+}
+
+// predicateOf resolves a function value used as a predicate: a closure, a function, or a method
+// value (x.m), for which the method itself and the bound receiver are returned.
+func predicateOf(v ssa.Value) (*ssa.Function, ssa.Value) {
+	switch x := v.(type) {
+	case *ssa.Function:
+		return x, nil
+	case *ssa.MakeClosure:
+		f, _ := x.Fn.(*ssa.Function)
+		if f == nil {
+			return nil, nil
+		}
+		if f.Synthetic != "" && len(x.Bindings) == 1 {
+			// bound method wrapper: calls the method on its free variable
+			for _, c := range callsIn(f) {
+				if callee := staticCallee(c); callee != nil && callee.Blocks != nil {
+					return callee, x.Bindings[0]
+				}
+			}
+		}
+		return f, nil
+	}
+	return nil, nil
+}
+
+func addrOfLoad(v ssa.Value) ssa.Value {
+	if u, ok := v.(*ssa.UnOp); ok && u.Op == token.MUL {
+		return u.X
+	}
+	return v
 }
